@@ -7,11 +7,11 @@ func boundsFor(prop, tier string) map[string]interface{} {
 	th := tier == "thorough"
 	switch prop {
 	case "C12":
-		b["string_length_n"] = "0..8"
-		b["byte_slice_length_n"] = "0..4"
+		b["string_length_n"] = "0..14"
+		b["byte_slice_length_n"] = "0..10"
 		if th {
-			b["string_length_n"] = "0..16"
-			b["byte_slice_length_n"] = "0..8"
+			b["string_length_n"] = "0..32"
+			b["byte_slice_length_n"] = "0..16"
 		}
 		b["bytes"] = "all 256 values per position (symbolic)"
 		b["outside"] = "longer inputs (argued, not solved: the loops are position-independent)"
